@@ -241,9 +241,9 @@ FA = "src/adapter/file_adapter.rs"
 SA = "src/adapter/string_adapter.rs"
 CE = "src/cached_enforcer.rs"
 BODYSETS = {
+    # (private_enforce / private_enforce_with_context, the role-link builders of assertion.rs / default_model.rs and
+    #  DefaultModel::clear_policy are TRANSLATED and proved equal to the model: PcEnforceGen.v, PcLinksGen.v)
     "enf": [
-        ("private_enforce", ENF, fnre("private_enforce")),
-        ("private_enforce_with_context", ENF, fnre("private_enforce_with_context")),
         ("register_g_functions", ENF, fnre("register_g_functions")),
         ("new_raw", ENF, fnre("new_raw", True)),
         ("new", ENF, fnre("new", True), impl_start("CoreApi", "Enforcer")),
@@ -266,8 +266,6 @@ BODYSETS = {
         ("add_def", DM, fnre("add_def")),
         ("load_section", DM, fnre("load_section")),
         ("load_assertion", DM, fnre("load_assertion")),
-        ("build_role_links", DM, fnre("build_role_links")),
-        ("build_incremental_role_links", DM, fnre("build_incremental_role_links")),
         ("add_policy", DM, fnre("add_policy")),
         ("add_policies", DM, fnre("add_policies")),
         ("get_policy", DM, fnre("get_policy")),
@@ -276,11 +274,8 @@ BODYSETS = {
         ("get_values_for_field_in_policy", DM, fnre("get_values_for_field_in_policy")),
         ("remove_policy", DM, fnre("remove_policy")),
         ("remove_policies", DM, fnre("remove_policies")),
-        ("clear_policy", DM, fnre("clear_policy")),
         ("remove_filtered_policy", DM, fnre("remove_filtered_policy")),
         ("to_text", DM, fnre("to_text")),
-        ("ast_build_role_links", "src/model/assertion.rs", fnre("build_role_links")),
-        ("ast_build_incremental_role_links", "src/model/assertion.rs", fnre("build_incremental_role_links")),
     ],
     "internal": [
     ],
